@@ -129,6 +129,8 @@ class CayleyGraphDef:
         else:
             raise ValueError('Unsupported format for "generators" ' + str(type(generators)))
 
+        generators_list = [[int(x) for x in perm] for perm in generators_list]
+
         # Validate generators.
         n = len(generators_list[0])
         id_perm = list(range(n))
